@@ -75,7 +75,7 @@ func planOf(t []*Node) txPlan {
 				tag++
 				n.Nat.Tag = tag
 				switch n.Nat.Kind {
-				case natSetFee, natBlock, natUnblock, natDesignate, natSetWl, natDelWl:
+				case natSetFee, natBlock, natUnblock, natDesignate, natSetWl, natDelWl, natSetGas:
 					p.committee = true
 				case natDeploy:
 					p.deploys = true
@@ -132,6 +132,7 @@ func oracleReq(u int) *Node          { return nat(natOracleReq, 15, NatOp{Val: u
 func oracleFinish() *Node            { return nat(natOracleFinish, 15, NatOp{}) }
 func lockDep(till int) *Node         { return nat(natLock, 15, NatOp{Val: till}) }
 func withdraw(to int) *Node          { return nat(natWithdraw, 15, NatOp{To: to}) }
+func setGas(v int) *Node             { return nat(natSetGas, 15, NatOp{Val: v}) }
 func destroy() *Node                 { return nat(natDestroy, 15, NatOp{}) }
 func designate(role, v int) *Node    { return nat(natDesignate, 15, NatOp{To: role, Val: v}) }
 func setWl(c, fee int) *Node         { return nat(natSetWl, 15, NatOp{To: c, Val: fee}) }
@@ -220,6 +221,12 @@ func corpus() [][]txPlan {
 		one(call(0, 15, designate(8, 1), try(L(designate(8, 2)), none, nil))),
 		one(bothWays(1, func() []*Node { return L(setWl(1, 300), setWl(2, 10), setWl(1, 301)) })...),
 		one(call(0, 15, setWl(0, 5), setWl(3, 7), try(L(call(1, 15, delWl(0), setWl(2, 9), throw())), none, nil), delWl(3))),
+		// GasPerBlock set twice for the same block index, the second time in an execution that is rolled back (a
+		// callee that throws under the caller's TRY; a later transaction that FAULTs): the record of the first set
+		// must survive in the cache (the list of records is append-only: a layer's copy must be its own)
+		one(call(0, 15, setGas(300000000), try(L(call(1, 15, setGas(700000000), throw())), L(notify(1)), nil), call(2, 15, put(0, 1)))),
+		{planOf(L(call(0, 15, setGas(300000000)))), planOf(L(call(0, 15, setGas(700000000), call(1, 15, setGas(800000000)), abort()))), planOf(L(call(2, 15, put(0, 1))))},
+		one(call(0, 15, try(L(call(1, 15, setGas(100000000), setGas(200000000), throw())), none, nil), setGas(1000000001))),
 		// a whitelisted fee that exists already is set AGAIN in a rolled-back callee / in a transaction that FAULTs
 		// (the cached record is updated in place: it must be the layer's own copy)
 		one(call(0, 15, setWl(2, 10), try(L(call(1, 15, setWl(2, 99), setWl(2, 98), throw())), L(notify(1)), nil), call(2, 15, put(0, 1)))),
